@@ -16,6 +16,7 @@ CSTATE = "rt::condvar::State"
 
 
 def W1(ctx):
+    """Condvar::wait: branch -> enqueue(active) -> release mutex -> park -> re-acquire mutex, on every path."""
     prog = ctx.prog
     fk = "rt::condvar::Condvar::wait"
     root = prog.ident(fk)
@@ -52,6 +53,7 @@ def W1(ctx):
 
 
 def W2(ctx):
+    """notify_one pops one waiter and unparks exactly it; notify_all drains the whole queue and unparks every drained waiter."""
     prog = ctx.prog
     # notify_one
     fk = "rt::condvar::Condvar::notify_one::{closure#0}"
@@ -196,6 +198,7 @@ def W3(ctx):
 
 
 def W4(ctx):
+    """Writers of Notify.notified / did_spur, might_spur = spurious && !did_spur, spurious branch only under might_spur."""
     prog = ctx.prog
     rows = {
         "notified": {"rt::notify::Notify::new": None, "rt::notify::Notify::notify": 1, "rt::notify::Notify::wait": 0},
@@ -290,6 +293,7 @@ def _notify_new_args(prog, fk):
 
 
 def W5(ctx):
+    """spawn/join/block_on build their Notify with the right (seq_cst, spurious); result stored before notify; join waits before taking the result."""
     prog = ctx.prog
     rows = [("thread::spawn_internal", (1, 0), "join handles: seq_cst, never spurious"),
             ("sync::notify::Notify::new", (0, 1), "public Notify: may spur once")]
